@@ -25,6 +25,7 @@ type prog struct {
 	trace  []string
 	failed bool
 	op     string
+	lazy   bool // vary the observation route and skip some intermediate observations
 }
 
 func (p *prog) input() string {
@@ -57,7 +58,17 @@ func (p *prog) step(op, desc string, wantPanic bool, f func()) (panicked bool) {
 	if panicked {
 		p.c.Count("predicted_panics")
 	}
+	// the heap is compared after most steps, through a varying read route; now and then a step is left unobserved so
+	// that call sequences without any read in between occur as well (the next comparison still covers its effect)
+	if p.lazy && p.r != nil && !p.h.HasUnbound() && p.r.Chance(1, 4) {
+		p.c.Count("steps_left_unobserved")
+		return
+	}
+	if p.lazy && p.r != nil {
+		p.h.Route = p.r.Intn(3)
+	}
 	p.checkHeap()
+	p.h.Route = 0
 	return
 }
 
@@ -289,9 +300,10 @@ func runC05(c *fw.Ctx) {
 		c.Distinct(p.input())
 	})
 	c.Cases("programs", c.N(1500, 150000), false, func(i int, r *rng.R) {
-		p := &prog{c: c, r: r, h: &model.Heap{}}
+		p := &prog{c: c, r: r, h: &model.Heap{}, lazy: i%2 == 1}
 		guard(c, p.input, func() {
 			c05Program(p, steps)
+			p.checkHeap()
 		})
 		if len(p.trace) >= 5 {
 			c.Distinct(p.input())
